@@ -13,6 +13,9 @@ import (
 // from Zn code (*syntax.BlockStmt). It's the constructor of 如何XX or (anoymous function in the future)
 func compileFunction(vm *r.VM, node *syntax.FunctionDeclareStmt) *value.Function {
 	var mainLogicHandler = func(receiver r.Element, params []r.Element) (r.Element, error) {
+		// until the first statement runs, the call is at the line of the declaration
+		// (e.g. a wrong number of arguments is reported there)
+		vm.SetCurrentLine(node.GetCurrentLine())
 		// 2. do eval exec block
 		return evalExecBlock(vm, node.ExecBlock, params)
 	}
